@@ -548,6 +548,17 @@ def filter_decisions(pattern, decisions, exact=False):
 def resolve_action(base, decision):
     a = decision.action
 
+    if a in ("clear", "remove", "take_max"):
+        # These actions act on the key of their diff entries. If the decision
+        # has been moved to a parent path (its diffs wrapped in patch ops, see
+        # push_patch_decision), it has to be resolved at its original level,
+        # otherwise e.g. a cleared execution_count clears the entire output:
+        popped = pop_patch_decision(decision)
+        if popped is not None:
+            key = popped.common_path[-1]
+            subdiff = resolve_action(base[key], popped)
+            return [op_patch(key, subdiff)] if subdiff else []
+
     if a == "base":
         return []   # no-op
 
